@@ -580,7 +580,7 @@ def socket_lifecycle_cases(ctx, hook):
     import time
     from mido.sockets import PortServer, SocketPort, connect
     n = 0
-    for peer in ('alive', 'closed', 'reset'):
+    for peer in ('alive', 'closed', 'reset', 'reset-noticed-by-writing'):
         for via in ('close', 'with', 'del'):
             case = {'kind': 'socket-lifecycle', 'peer': peer, 'via': via}
             server = client = port = None
@@ -592,11 +592,34 @@ def socket_lifecycle_cases(ctx, hook):
                 client.send(out_msg(1))
                 if peer == 'closed':
                     client.close()
-                elif peer == 'reset':
+                elif peer in ('reset', 'reset-noticed-by-writing'):
                     port.send(out_msg(2))
                     client._socket.setsockopt(socket.SOL_SOCKET, socket.SO_LINGER, struct.pack('ii', 1, 0))
                     client.close()          # unread data + linger 0: the kernel sends a reset
                 time.sleep(0.02)
+                if peer == 'reset-noticed-by-writing':
+                    # the port learns about the disconnect from failing writes (broken pipe), not from a read;
+                    # it closes itself - once - and from then on behaves like any closed port
+                    releases = []
+                    real_close = port._close
+                    port._close = lambda: (releases.append(1), real_close())[1]
+                    for i in range(3):
+                        try:
+                            port.send(out_msg(10 + i))
+                        except (OSError, ValueError):
+                            pass
+                        time.sleep(0.01)
+                    if port.closed:
+                        try:
+                            polled = port.poll()
+                            drained = list(port)
+                            ok_after, why_after = True, None
+                        except Exception as exc:
+                            ok_after, why_after = False, f'{type(exc).__name__}: {exc}'
+                        ctx.check('results == lifecycle model', ok_after, 'socket:receive-after-write-failure', case, why_after)
+                    else:
+                        ctx.check('closed flag == model', port._socket.fileno() != -1, 'socket:released-but-not-closed', case,
+                                  {'closed': port.closed, 'fileno': port._socket.fileno()})
                 try:
                     if via == 'close':
                         port.close()
@@ -611,8 +634,10 @@ def socket_lifecycle_cases(ctx, hook):
                     why = None
                 except Exception as exc:
                     ok, why = False, f'{type(exc).__name__}: {exc}'
-                ctx.check('device released exactly once', ok and port.closed and port._socket.fileno() == -1,
-                          f'socket:close-failed:{peer}', case, {'error': why, 'closed': port.closed})
+                ctx.check('device released exactly once', ok and port.closed and port._socket.fileno() == -1
+                          and (peer != 'reset-noticed-by-writing' or len(releases) == 1),
+                          f'socket:close-failed:{peer}', case, {'error': why, 'closed': port.closed,
+                                                                'releases': len(releases) if peer == 'reset-noticed-by-writing' else None})
                 try:
                     port.send(out_msg(3))
                     ctx.check('results == lifecycle model', False, 'socket:send-after-close', case, None)
